@@ -57,7 +57,32 @@ TRANSPARENT = {
     "std::result::Result::<T, E>::as_ref": 0,
 }
 MAX_INLINE_DEPTH = 3
-CLONE = {"std::clone::Clone::clone", "std::borrow::ToOwned::to_owned", "std::string::ToString::to_string"}
+CLONE = {"std::clone::Clone::clone", "std::borrow::ToOwned::to_owned", "std::string::ToString::to_string",
+         "std::option::Option::<&T>::cloned", "std::option::Option::<&T>::copied",
+         "std::option::Option::<&mut T>::cloned", "std::option::Option::<&mut T>::copied"}
+
+
+_OPT, _RES = "std::option::Option", "std::result::Result"
+_O, _R = ("Some", "None"), ("Ok", "Err")
+# decl -> what the combinator returns on each variant of its receiver
+COMBINATORS = {
+    "std::option::Option::<T>::map": {"n": 2, "variants": _O, "ok": ("apply", 1, True, (_OPT, "Some")), "err": ("wrap", _OPT, "None", None)},
+    "std::option::Option::<T>::and_then": {"n": 2, "variants": _O, "ok": ("apply", 1, True, None), "err": ("wrap", _OPT, "None", None)},
+    "std::option::Option::<T>::map_or": {"n": 3, "variants": _O, "ok": ("apply", 2, True, None), "err": ("arg", 1)},
+    "std::option::Option::<T>::map_or_else": {"n": 3, "variants": _O, "ok": ("apply", 2, True, None), "err": ("apply", 1, False, None)},
+    "std::option::Option::<T>::unwrap_or": {"n": 2, "variants": _O, "ok": ("payload",), "err": ("arg", 1)},
+    "std::option::Option::<T>::unwrap_or_else": {"n": 2, "variants": _O, "ok": ("payload",), "err": ("apply", 1, False, None)},
+    "std::option::Option::<T>::ok_or": {"n": 2, "variants": _O, "ok": ("wrap", _RES, "Ok", "payload"), "err": ("wrap", _RES, "Err", ("arg", 1))},
+    "std::option::Option::<T>::ok_or_else": {"n": 2, "variants": _O, "ok": ("wrap", _RES, "Ok", "payload"), "err": ("apply", 1, False, (_RES, "Err"))},
+    "std::option::Option::<T>::or": {"n": 2, "variants": _O, "ok": ("same",), "err": ("arg", 1)},
+    "std::option::Option::<T>::or_else": {"n": 2, "variants": _O, "ok": ("same",), "err": ("apply", 1, False, None)},
+    "std::result::Result::<T, E>::map": {"n": 2, "variants": _R, "ok": ("apply", 1, True, (_RES, "Ok")), "err": ("same",)},
+    "std::result::Result::<T, E>::map_err": {"n": 2, "variants": _R, "ok": ("same",), "err": ("apply", 1, True, (_RES, "Err"))},
+    "std::result::Result::<T, E>::and_then": {"n": 2, "variants": _R, "ok": ("apply", 1, True, None), "err": ("same",)},
+    "std::result::Result::<T, E>::unwrap_or": {"n": 2, "variants": _R, "ok": ("payload",), "err": ("arg", 1)},
+    "std::result::Result::<T, E>::unwrap_or_else": {"n": 2, "variants": _R, "ok": ("payload",), "err": ("apply", 1, True, None)},
+    "std::result::Result::<T, E>::ok": {"n": 1, "variants": _R, "ok": ("wrap", _OPT, "Some", "payload"), "err": ("wrap", _OPT, "None", None)},
+}
 
 BOX_INTERNALS = {"std::boxed::Box", "std::ptr::Unique", "std::ptr::NonNull"}
 
@@ -101,6 +126,27 @@ def strip(t):
     while isinstance(t, tuple) and t and t[0] == "clone":
         t = t[1]
     return t
+
+
+def lookup(t):
+    """(collection term, key term) when t denotes the element stored under a key: `v[i]`, the Some payload of
+    `v.get(i)` (also through unwrap / expect), `map[k]`, the payload of `map.get(k)`; else None."""
+    t = strip(t)
+    if not isinstance(t, tuple) or not t:
+        return None
+    if t[0] == "call" and len(t[2]) == 2 and (t[1].endswith("::index") or t[1].endswith("::index_mut")):
+        return strip(t[2][0]), strip(t[2][1])
+    if t[0] == "index":
+        return strip(t[1]), strip(t[2])
+    inner = None
+    if t[0] == "field" and t[2] == "Some.0":
+        inner = strip(t[1])
+    elif t[0] == "call" and len(t[2]) >= 1 and (t[1].endswith("Option::<T>::unwrap") or t[1].endswith("Option::<T>::expect")):
+        inner = strip(t[2][0])
+    if inner is not None and inner[0] == "call" and len(inner[2]) == 2 and \
+            (inner[1].endswith("::get") or inner[1].endswith("::get_mut")):
+        return strip(inner[2][0]), strip(inner[2][1])
+    return None
 
 
 def show(t, depth=0):
@@ -296,6 +342,8 @@ class Walker:
                 for n, v in s[3]:
                     if n == short:
                         return v
+        if s[0] == "closure" and name.isdigit() and int(name) < len(s[2]):
+            return s[2][int(name)]
         if s[0] == "tuple":
             try:
                 return s[1][int(name)]
@@ -369,6 +417,92 @@ class Walker:
         if k == "repeat":
             return ("call", "<repeat>", (self.operand(env, mem, rv["op"]),), (-1, 0))
         return ("const", "?", rv.get("repr", k), None)
+
+    # ---- inlining -----------------------------------------------------
+    def _walk_into(self, H, init_env, refine, mem, bb, cnt):
+        """Walk body H (a helper function or a closure body) with its parameters bound to caller terms.  Returns
+        [(ret term, events, decisions, refine, mem, end)]; events/decisions are relabelled to the caller's block."""
+        sub = Walker(H, max_visits=self.max_visits, max_paths=self.max_paths, inline=self.inline,
+                     _depth=self._depth + 1, _stack=self._stack + (self.body.path,), _root=self.root,
+                     _tag=self._tag + ((bb, cnt, H.path),))
+        sub.transparent = self.transparent
+        sps = sub.paths(init_refine=refine, init_env=init_env, init_mem=mem)
+        self.truncated += sub.truncated
+        outs = []
+        for sp in sps:
+            evs = []
+            for e in sp.events:
+                e2 = dict(e)
+                e2.setdefault("inl_bb", e["bb"])
+                e2.setdefault("inl", H.path)
+                e2["bb"] = bb
+                evs.append(e2)
+            outs.append((sp.ret, evs, [(c, v, bb) for c, v, _b in sp.decisions], sp.refine, sp.mem, sp.end))
+        return outs
+
+    def _apply(self, f, fargs, refine, mem, bb, cnt):
+        """Apply a closure value / fn item term to argument terms by walking its body; None when it has no body here."""
+        f = strip(f)
+        get = getattr(self.inline, "closure", None)
+        if self._depth >= MAX_INLINE_DEPTH or get is None:
+            return None
+        if f[0] == "closure":
+            H = get(f[1])
+            if H is None or H.mir["arg_count"] != len(fargs) + 1:
+                return None
+            env = {1: f}
+            for i, a in enumerate(fargs):
+                env[i + 2] = a
+            return self._walk_into(H, env, refine, mem, bb, cnt)
+        if f[0] == "fn":
+            H = get(f[1])
+            if H is None or H.mir["arg_count"] != len(fargs) or H.path == self.body.path or H.path in self._stack:
+                return None
+            return self._walk_into(H, {i + 1: a for i, a in enumerate(fargs)}, refine, mem, bb, cnt)
+        return None
+
+    def _combinator(self, decl, args, refine, mem, bb, cnt, line):
+        """Option / Result combinators as what they are: a two-way branch on the variant, with the closure (if any)
+        applied to the payload.  Returns outcomes like _walk_into, or None (keep the call opaque)."""
+        spec = COMBINATORS[decl]
+        if len(args) != spec["n"]:
+            return None
+        x = args[0]
+        okv, errv = spec["variants"]
+        known = self._variant_of(x, refine)
+        outs = []
+        for v in (okv, errv):
+            if known is not None and v not in known:
+                continue
+            rf = dict(refine)
+            rf[x] = frozenset([v])
+            decided = known is None or len(known) > 1
+            decs = [(("variant", x), v, bb)] if decided else []
+            evs = [{"k": "branch", "cond": ("variant", x), "value": v, "bb": bb, "line": line}] if decided else []
+            payload = self._field(x, v + ".0", mem) if v != "None" else None
+            how = spec["ok" if v == okv else "err"]
+            kind = how[0]
+            if kind == "payload":
+                outs.append((payload, evs, decs, rf, mem, "return"))
+            elif kind == "arg":
+                outs.append((args[how[1]], evs, decs, rf, mem, "return"))
+            elif kind == "wrap":          # ("wrap", adt, variant, "payload" | ("arg", i) | None)
+                inner = payload if how[3] == "payload" else (args[how[3][1]] if how[3] else None)
+                outs.append((("agg", how[1], how[2], (("0", inner),) if inner is not None else ()), evs, decs, rf, mem, "return"))
+            elif kind == "same":
+                outs.append((x, evs, decs, rf, mem, "return"))
+            elif kind == "apply":         # ("apply", arg index of f, pass payload?, wrap or None)
+                fargs = [payload] if how[2] else []
+                sub = self._apply(args[how[1]], fargs, rf, mem, bb, cnt)
+                if sub is None:
+                    return None
+                for ret, sevs, sdecs, rf2, mm2, end in sub:
+                    if end == "return" and how[3] is not None:
+                        ret = ("agg", how[3][0], how[3][1], (("0", ret),))
+                    outs.append((ret, evs + sevs, decs + sdecs, rf2, mm2, end))
+            else:
+                return None
+        return outs
 
     # ---- walking ----------------------------------------------------
     def paths(self, init_refine=None, entry=0, stop_blocks=(), init_env=None, init_mem=None):
@@ -456,40 +590,35 @@ class Walker:
                     H = self.inline(name)
                     if H is not None and H.mir["arg_count"] != len(args):
                         H = None
+                outcomes = None
                 if H is not None:
                     ev["inlined"] = True
-                    sub = Walker(H, max_visits=self.max_visits, max_paths=self.max_paths, inline=self.inline,
-                                 _depth=self._depth + 1, _stack=self._stack + (body.path,), _root=self.root,
-                                 _tag=self._tag + ((bb, cnt, H.path),))
-                    sub.transparent = self.transparent
-                    sps = sub.paths(init_refine=refine, init_env={i + 1: a for i, a in enumerate(args)}, init_mem=mem)
-                    self.truncated += sub.truncated
-                    for sp in sps:
-                        evs2 = list(events)
-                        for e in sp.events:
-                            e2 = dict(e)
-                            e2.setdefault("inl_bb", e["bb"])
-                            e2.setdefault("inl", H.path)
-                            e2["bb"] = bb
-                            evs2.append(e2)
-                        decs2 = decisions + [(c, v, bb) for c, v, _b in sp.decisions]
-                        if sp.end != "return" or t["target"] is None:
-                            out.append(Path(blocks, evs2, sp.refine, sp.end if sp.end != "return" else ("diverge", name), None, env, decs2, sp.mem))
+                    outcomes = self._walk_into(H, {i + 1: a for i, a in enumerate(args)}, refine, mem, bb, cnt)
+                elif self.inline is not None and decl in COMBINATORS:
+                    outcomes = self._combinator(decl, args, refine, mem, bb, cnt, t["line"])
+                    if outcomes is not None:
+                        ev["modelled"] = True
+                if outcomes is not None:
+                    for ret, sevs, sdecs, rf2, mm2, end in outcomes:
+                        evs2 = events + sevs
+                        decs2 = decisions + sdecs
+                        if end != "return" or t["target"] is None:
+                            out.append(Path(blocks, evs2, rf2, end if end != "return" else ("diverge", name), None, env, decs2, mm2))
                             self.npaths += 1
                             continue
-                        env2, mem2 = dict(env), dict(sp.mem)
+                        env2, mem2 = dict(env), dict(mm2)
                         d = t["dest"]
-                        evs2.append({"k": "inline-return", "callee": name, "result": sp.ret, "bb": bb, "line": t["line"]})
+                        evs2.append({"k": "inline-return", "callee": name, "result": ret, "bb": bb, "line": t["line"]})
                         if not d["p"]:
-                            env2[d["l"]] = sp.ret
+                            env2[d["l"]] = ret
                         else:
                             target = self.place(env2, mem2, d)
-                            mem2[target] = sp.ret
-                            evs2.append({"k": "write", "place": target, "value": sp.ret, "bb": bb, "line": t["line"],
+                            mem2[target] = ret
+                            evs2.append({"k": "write", "place": target, "value": ret, "bb": bb, "line": t["line"],
                                          "deref": any(e == "deref" for e in d["p"]),
                                          "field": target[2] if target[0] == "field" else None,
                                          "base_ty": body.locals[d["l"]]["s"], "raw": body.locals[d["l"]].get("k") == "ptr"})
-                        stack.append((t["target"], env2, mem2, sp.refine, evs2, decs2, blocks, visits))
+                        stack.append((t["target"], env2, mem2, rf2, evs2, decs2, blocks, visits))
                     if self.npaths > self.max_paths:
                         raise TooManyPaths(body.path)
                     continue
